@@ -14,6 +14,7 @@ load_binary:
   * the unit-test outputs are what sorting / relocating / patching mean (sorted, same elements, indices follow).
 -/
 import NV.Common.Proto
+import NV.C17.BinFile
 
 namespace NV.C17
 
@@ -540,6 +541,24 @@ def judge (caseLines : List String) (trace : List String) : List String :=
             then go rest tr' s fuel
             else go rest tr' (s.flag s!"badload-unexpected {b}") fuel
           | _ => go rest [] (s.flag "badload-without-output") fuel
+        | ["bindump", obj] =>
+          -- the bytes of a saved binary: they must be a well-formed file (checksum, every section inside the file)
+          -- that names the program it was saved for
+          let chunks := tr.takeWhile (fun l => l.startsWith s!"bin {obj} ")
+          let after := tr.drop chunks.length
+          let s :=
+            match after.head? with
+            | some l =>
+              if l.startsWith s!"binsum {obj} " && !chunks.isEmpty then
+                match decodeFile 4 (unhexBytes (String.join (chunks.map (fun l => ((toks l).getD 2 ""))))) with
+                | none => s.flag s!"saved-binary-undecodable {obj}"
+                | some b =>
+                  if b.name == (obj ++ ".c").toUTF8.toList then s
+                  else s.flag s!"saved-binary-names-another-program {obj}"
+              else if l == s!"bindump {obj} unavailable" && chunks.isEmpty then s
+              else s.flag s!"bindump-unexpected {l}"
+            | none => s.flag s!"bindump-without-output {obj}"
+          go rest (after.drop 1) s fuel
         | "restart" :: _ =>
           match tr with
           | l :: tr' => go rest tr' (traceLine s 0 l).1 fuel
